@@ -32,6 +32,10 @@ def find_def(relpath, qualname):
         found = None
         for child in ast.walk(node) if isinstance(node, (ast.FunctionDef, ast.AsyncFunctionDef)) else node.body:
             if isinstance(child, (ast.FunctionDef, ast.ClassDef)) and child.name == part and child is not node:
+                # typing.overload stubs come first and share the name: the implementation is the definition without
+                # an @overload decorator
+                if isinstance(child, ast.FunctionDef) and any(ast.unparse(d).split(".")[-1] == "overload" for d in child.decorator_list):
+                    continue
                 found = child
                 break
         if found is None:
